@@ -13,6 +13,7 @@ import (
 	"github.com/alicebob/sqlittle/sql"
 	"pgregory.net/rapid"
 
+	"verif/fold"
 	"verif/oracle"
 	"verif/sqlgen"
 	"verif/vt"
@@ -504,10 +505,50 @@ func runLocal(r *vt.Run, t vt.TB, s localSpec) {
 					continue
 				}
 				r.Count("local:constraint-orders-tried", 1)
-				if out := parseOnce(v); out.err != "" || out.panic != "" {
+				out := parseOnce(v)
+				if out.err != "" || out.panic != "" {
 					r.Violation(t, s, "local:constraint-order", "%q parses, the same constraints in another order do not (SQLite accepts both): Parse(%q) = %s%s", stmts[1+i], v, out.err, out.panic)
 					return
 				}
+				// ... and what is reported about a constraint that occurs once in
+				// the list is the same wherever it stands in it
+				vst, isT := out.res.(sql.CreateTableStmt)
+				if !isT || len(vst.Columns) != 1 || len(ast.Columns) != 1 {
+					r.Violation(t, s, "local:constraint-order", "Parse(%q) = %+v", v, out.res)
+					return
+				}
+				a, b := ast.Columns[0], vst.Columns[0]
+				count := func(word string) int {
+					n := 0
+					for _, k := range c.Cons {
+						if strings.Contains(" "+fold.Upper(k)+" ", " "+word+" ") {
+							n++
+						}
+					}
+					return n
+				}
+				var diff string
+				switch {
+				case a.Name != b.Name || a.Type != b.Type:
+					diff = "name or type"
+				case count("REFERENCES") == 1 && !reflect.DeepEqual(a.References, b.References):
+					diff = fmt.Sprintf("REFERENCES clause: %+v / %+v", a.References, b.References)
+				case count("DEFAULT") == 1 && !reflect.DeepEqual(a.Default, b.Default):
+					diff = fmt.Sprintf("DEFAULT: %#v / %#v", a.Default, b.Default)
+				case count("COLLATE") == 1 && a.Collate != b.Collate:
+					diff = fmt.Sprintf("COLLATE: %q / %q", a.Collate, b.Collate)
+				case count("CHECK") == 1 && !reflect.DeepEqual(a.Checks, b.Checks):
+					diff = fmt.Sprintf("CHECK: %+v / %+v", a.Checks, b.Checks)
+				case count("PRIMARY") == 1 && (a.PrimaryKey != b.PrimaryKey || a.PrimaryKeyDir != b.PrimaryKeyDir || a.AutoIncrement != b.AutoIncrement):
+					diff = "PRIMARY KEY"
+				case a.Unique != b.Unique:
+					diff = "UNIQUE"
+				}
+				if diff != "" {
+					r.Violation(t, s, "local:constraint-order-report", "the constraints of column %q in another order (%q): what is reported about one of them changes: %s", stmts[1+i], v, diff)
+					return
+				}
+				r.Count("local:constraint-orders-compared", 1)
 			}
 		}
 		if len(ast.Columns) == 1 && typeArgsOf(ast, 0) != typeArgsOf(st, i) {
